@@ -210,7 +210,10 @@ func ruleWriteValidated(e *Engine, r *Reporter) {
 	for _, cspec := range chain {
 		fn := e.Func(cspec.pkg, cspec.fn)
 		for _, want := range cspec.callees {
+			// the validator is called in fn, or in a same-package helper fn calls (one level); in the latter case the
+			// helper must fail on the validator's error and fn must fail on the helper's
 			var call *ssa.Call
+			var via *ssa.Call
 			eachInstr(fn, false, func(in ssa.Instruction) {
 				if c, ok := in.(*ssa.Call); ok {
 					if o := calleeObj(c); o != nil && o.Name() == want && call == nil {
@@ -218,12 +221,35 @@ func ruleWriteValidated(e *Engine, r *Reporter) {
 					}
 				}
 			})
+			if call == nil {
+				eachInstr(fn, false, func(in ssa.Instruction) {
+					c, ok := in.(*ssa.Call)
+					if !ok || call != nil {
+						return
+					}
+					g := staticCallee(c)
+					if g == nil || len(g.Blocks) == 0 || pkgOf(g) != pkgOf(fn) || g == fn {
+						return
+					}
+					eachInstr(g, false, func(in2 ssa.Instruction) {
+						if c2, ok := in2.(*ssa.Call); ok && call == nil {
+							if o := calleeObj(c2); o != nil && o.Name() == want {
+								call, via = c2, c
+							}
+						}
+					})
+				})
+			}
 			key := fmt.Sprintf("%s | %s", fname(fn), want)
 			if call == nil {
 				r.Bad(key, e.pos(fn.Pos()), "the validator "+want+" is no longer called here")
 				continue
 			}
-			fails, found := errorLeadsToFailure(fn, call)
+			fails, found := errorLeadsToFailure(call.Parent(), call)
+			if via != nil {
+				f2, found2 := errorLeadsToFailure(fn, via)
+				fails, found = fails && f2, found && found2
+			}
 			r.Check(found && fails, key, e.instrPos(call), "its error stops the request", "the error of "+want+" does not stop the request: an invalid tuple is accepted")
 		}
 	}
@@ -237,8 +263,12 @@ func ruleWriteValidated(e *Engine, r *Reporter) {
 	}
 	r.Check(tail, fname(vw)+" | returns ValidateTupleForRead", e.pos(vw.Pos()), "model-level validation is part of write validation", "ValidateTupleForWrite no longer returns the verdict of ValidateTupleForRead (type restrictions / tupleset / condition checks are skipped for writes and contextual tuples)")
 	// context size limit: the `size > limit` edge cannot reach success
-	vr := e.Func("pkg/server/commands", "WriteCommand.validateWriteRequest")
+	vr0 := e.Func("pkg/server/commands", "WriteCommand.validateWriteRequest")
 	sizeOK, sizeFound := false, false
+	for _, vr := range sameePackageRegion(vr0, 1) {
+	if sizeFound {
+		break
+	}
 	for _, b := range vr.Blocks {
 		for si := range b.Succs {
 			for _, f := range edgeFacts(b, si) {
@@ -259,6 +289,8 @@ func ruleWriteValidated(e *Engine, r *Reporter) {
 			}
 		}
 	}
+	}
+	vr := vr0
 	r.Check(sizeFound && sizeOK, fname(vr)+" | condition context size limit", e.pos(vr.Pos()), "oversized context is rejected", "the condition context size limit is not enforced (test missing or its failing branch can still succeed)")
 }
 
